@@ -752,6 +752,28 @@ example : Src1IsVgpr { lshrrevWitness with src1 := 0xFFFFFFFF#64 } := by decide
 example : ShiftBelow8 { lshlAddWitness with src1 := 4#64 } := by decide
 example : ¬ ShiftBelow8 lshlAddWitness := by decide
 
+/-! ## Concrete instances (the statements are not vacuous: bodies and specification compute, and agree, on corner inputs) -/
+
+/-- `v_and_b32` with the inline constant −16 (`ReadOperand` returns 0xFFFF…F0) as SRC0 -/
+example : (raw_cdna3_runVANDB32 C06.Uni.zero ⟨5, 0xFFFFFFFFFFFFFFF0#64, 0x1234FFFF#64, 0#64, 0#64, 0#64, 0#64⟩).dst.map (tr 32)
+    = some 0x1234FFF0 ∧
+    (specLane (bin32 "v_and_b32" (· &&& ·)) lh_cdna3_runVANDB32 ⟨5, 0xFFFFFFFFFFFFFFF0#64, 0x1234FFFF#64, 0#64, 0#64, 0#64, 0#64⟩).d
+    = 0x1234FFF0 := by decide
+/-- `v_sub_co_u32` 1 − 2 in lane 7: destination 0xFFFFFFFF, borrow into bit 7 of the mask -/
+example : raw_gcn3_runVSUBI32 C06.Uni.zero ⟨7, 1#64, 2#64, 0#64, 0#64, 0#64, 0#64⟩ = ⟨some 0xFFFFFFFF#64, 0x80#64⟩ ∧
+    (specLane (co32 "v_sub_co_u32" subCo) lh_gcn3_runVSUBI32 ⟨7, 1#64, 2#64, 0#64, 0#64, 0#64, 0#64⟩).co = true := by decide
+/-- `v_cmp_lt_i32` −1 < 0 with −1 as a negative inline constant (all 64 bits set): true, in lane 63 -/
+example : (raw_gcn3_runVCmpLtI32 C06.Uni.zero ⟨63, 0xFFFFFFFFFFFFFFFF#64, 0#64, 0#64, 0#64, 0#64, 0#64⟩).acc = 0x8000000000000000#64 ∧
+    (specLane (cmpOf "" 32 .int (fun a b => cmpI 1 (w32 a) (w32 b))) lh_gcn3_runVCmpLtI32
+      ⟨63, 0xFFFFFFFFFFFFFFFF#64, 0#64, 0#64, 0#64, 0#64, 0#64⟩).co = true := by decide
+/-- `v_bfe_i32` of 0x00000F00, offset 8, width 4: the field 0xF sign-extends to −1 on both ALUs and in the ISA function -/
+example : (raw_gcn3_runVBFEI32 C06.Uni.zero ⟨0, 0xF00#64, 8#64, 4#64, 0#64, 0#64, 0#64⟩).dst.map (tr 32) = some 0xFFFFFFFF ∧
+    (raw_cdna3_runVBFEI32 C06.Uni.zero ⟨0, 0xF00#64, 8#64, 4#64, 0#64, 0#64, 0#64⟩).dst.map (tr 32) = some 0xFFFFFFFF ∧
+    bfeI 0xF00#32 8#32 4#32 = 0xFFFFFFFF#32 := by decide
+/-- `v_addc_co_u32` (VOP3b, carry-in from bit 3 of the SRC2 pair) 0xFFFFFFFF + 0 + 1 in lane 3 -/
+example : raw_cdna3_runVADDCU32VOP3b C06.Uni.zero ⟨3, 0xFFFFFFFF#64, 0#64, 0x8#64, 0#64, 0#64, 0#64⟩ = ⟨some 0#64, 0x8#64⟩ := by
+  decide
+
 /-! ## What the comparison is with: `execVALU`'s lane semantics, and property C06's lane-local body -/
 
 /-- **`specLane` is the lane semantics of the executable specification.**  For an integer instruction without SDWA,
@@ -787,6 +809,32 @@ theorem conforms_lane_body {h : LaneHandler} {op : VOp} (c : Conforms h op) (u :
 example : (lh_gcn3_runVADDCU32.body C06.Uni.zero ⟨0xFFFFFFFFFFFFFFFF#64, 0#64, 0#64, 0#64, true, false⟩).bit = true ∧
     ((lh_gcn3_runVADDCU32.body C06.Uni.zero ⟨0xFFFFFFFFFFFFFFFF#64, 0#64, 0#64, 0#64, true, false⟩).dst.map (tr 32))
       = some 0 := by decide
+
+/-- **Both ALUs agree wherever both conform** (last sentence of the property): two handlers proved conformant to the
+    same table entry, reading the same mask source, hand the same destination value (at destination width) to
+    `WriteOperand` and produce the same accumulator, on every lane input and whatever each instruction record holds. -/
+theorem alus_agree_of_conforms {hg hc : LaneHandler} {op : VOp} (cg : Conforms hg op) (cc : Conforms hc op)
+    (hm : hg.msrc = hc.msrc) (ug uc : Uni) (r : RawIn) (hi : r.i < 64) (hokg : hg.ok ug = true) (hokc : hc.ok uc = true) :
+    ((hg.raw ug r).dst.map (tr op.wd) = (hc.raw uc r).dst.map (tr op.wd)) ∧
+    (r.acc.getLsbD r.i = false → (hg.raw ug r).acc = (hc.raw uc r).acc) := by
+  have h1 := cg ug r hi hokg trivial
+  have h2 := cc uc r hi hokc trivial
+  have hs : specLane op hg r = specLane op hc r := by simp only [specLane, maskOf, hm]
+  rw [hs] at h1
+  constructor
+  · by_cases hk : (op.kind == .cmp) = true
+    · simp only [hk, if_true] at h1 h2; rw [h1.1, h2.1]
+    · simp only [hk, if_false] at h1 h2; rw [h1.1, h2.1]
+  · intro h0
+    by_cases hw : writesMask op.kind = true
+    · simp only [hw, if_true] at h1 h2; rw [h1.2 h0, h2.2 h0]
+    · simp only [hw, if_false] at h1 h2; rw [h1.2, h2.2]
+
+/-- e.g. `v_bfe_i32`: the GCN3 variant (special case `offset + width < 32`, fill `0xffffffff << width`) and the CDNA3
+    variant (arithmetic shift, `~mask`) return the same destination value on every input -/
+example (u : Uni) (r : RawIn) (hi : r.i < 64) :
+    (raw_gcn3_runVBFEI32 u r).dst.map (tr 32) = (raw_cdna3_runVBFEI32 u r).dst.map (tr 32) :=
+  (alus_agree_of_conforms (gcn3_runVBFEI32_conforms "") (cdna3_runVBFEI32_conforms "") rfl u u r hi rfl rfl).1
 
 /-! ## Coverage: the proved rows against the regenerated opcode switches -/
 
